@@ -62,7 +62,15 @@ class C16(Plugin):
             if mode == 0 and rng.random() < 0.4:
                 target = rng.choice(list(range(ncols)) + [ncols])
             header = Some(["h%d" % j for j in range(ncols)]) if (mode == 1 and rng.random() < 0.6) else None
-            sep = "\t"
+            # files: the separator (0 the default tab, given by leaving sep out; 1 ',', 2 ';', 3 '|' passed as sep=); data frames: 0 integer
+            # column labels, 1 string labels
+            var = rng.choice([0, 0, 1, 2, 3]) if mode == 1 else rng.choice([0, 0, 1])
+            if mode == 1 and rows and rng.random() < 0.08:
+                # a byte-order-mark character at the very beginning of the file is a character of the first cell like any other
+                if header is not None:
+                    header = Some(["\ufeff" + header.v[0]] + header.v[1:])
+                else:
+                    rows[0] = ["\ufeff" + rows[0][0]] + rows[0][1:] if rows[0] else rows[0]
             # staging: with `early` < len(recs) the same bulk call (pandas and, where it exists, file) is first made on the same
             # cells while the converter holds only the first `early` records; the other records are then added to the SAME converter
             # and the observed call follows (bulk = element-wise application of what the scalar method answers NOW)
@@ -70,7 +78,7 @@ class C16(Plugin):
             # row labels of the data frame: 0 the default RangeIndex, 1 reversed integers, 2 integers with gaps (a filtered frame),
             # 3 strings, 4 duplicated labels -- bulk conversion is per ROW, whatever the rows are called
             ix = rng.choice([0, 0, 0, 1, 2, 3, 4]) if mode == 0 else 0
-            yield [recs, d, tag, flags, rows, col, target, header, mode, [], early, ix]
+            yield [recs, d, tag, flags, rows, col, target, header, mode, [], early, ix, var]
 
     def observe(self, case):
         import pandas as pd
@@ -98,7 +106,8 @@ class C16(Plugin):
         cells = list(dict.fromkeys(r[col] for r in rows if len(r) > col))
         table = [[x, qprops.outcome(lambda: sf(x, strict=bool(st), passthrough=bool(pa)), qprops.v_ostr)] for x in cells]
         ix = case[11] if len(case) > 11 else 0
-        case = list(case[:9]) + [table, early, ix]
+        var = case[12] if len(case) > 12 else 0
+        case = list(case[:9]) + [table, early, ix, var]
         if mode == 0:
             ncols = max([len(r) for r in rows], default=col + 1)
             df = pd.DataFrame(rows, columns=list(range(ncols))) if rows else pd.DataFrame({j: pd.Series([], dtype=object) for j in range(ncols)})
@@ -112,8 +121,11 @@ class C16(Plugin):
             elif ix == 4:
                 df.index = [i // 2 for i in range(n)]
             f = getattr(c, "pd_" + FN[tag])
+            lab = (lambda j: "c%d" % j) if var == 1 else (lambda j: j)
+            if var == 1:
+                df.columns = [lab(j) for j in range(ncols)]
             try:
-                f(df, column=col, **qprops.flags(target_column=None if target < 0 else target), **kw)
+                f(df, column=lab(col), **qprops.flags(target_column=None if target < 0 else lab(target)), **kw)
             except Exception as e:
                 return case, [code_of(e)]
             out = []
@@ -123,22 +135,23 @@ class C16(Plugin):
         os.makedirs(os.path.join(ROOT, "_build", "tmp"), exist_ok=True)
         fd, path = tempfile.mkstemp(suffix=".tsv", dir=os.path.join(ROOT, "_build", "tmp"))
         os.close(fd)
+        dl = ["\t", ",", ";", "|"][var]
         try:
-            with open(path, "w", newline="") as f:
+            with open(path, "w", newline="", encoding="utf-8") as f:
                 # the csv module's own rendering of the table (a lone empty cell is written as "" so that it is not an empty line)
-                w = csv.writer(f, delimiter="\t", lineterminator="\n")
+                w = csv.writer(f, delimiter=dl, lineterminator="\n")
                 if header is not None:
                     w.writerow(header.v)
                 w.writerows(rows)
             before = open(path, "rb").read()
             code = 0
             try:
-                getattr(c, "file_" + FN[tag])(path, column=col, header=header is not None, **kw)
+                getattr(c, "file_" + FN[tag])(path, column=col, header=header is not None, **({"sep": dl} if var else {}), **kw)
             except Exception as e:
                 code = code_of(e)
             after = open(path, "rb").read()
-            with open(path, newline="") as f:
-                got = list(csv.reader(f, delimiter="\t"))
+            with open(path, newline="", encoding="utf-8") as f:
+                got = list(csv.reader(f, delimiter=dl))
             h = None
             if header is not None and got:
                 h = Some(got[0])
@@ -193,6 +206,9 @@ class C16(Plugin):
         o = acc.setdefault("outcome_hist", {})
         o[str(obs[0])] = o.get(str(obs[0]), 0) + 1
         acc["cells_converted"] = acc.get("cells_converted", 0) + len(case[4])
+        if len(case) > 12:
+            h3 = acc.setdefault("variant (files: 0 tab / default sep, 1 ',', 2 ';', 3 '|'; data frames: 0 integer labels, 1 string labels)", {})
+            h3[("file:" if case[8] else "pd:") + str(case[12])] = h3.get(("file:" if case[8] else "pd:") + str(case[12]), 0) + 1
         if len(case) > 11 and case[8] == 0:
             h2 = acc.setdefault("data_frame_row_labels (0 RangeIndex, 1 reversed, 2 with gaps, 3 strings, 4 duplicated)", {})
             h2[str(case[11])] = h2.get(str(case[11]), 0) + 1
